@@ -150,7 +150,42 @@ func (e *vEnv) callbackRaw(state, code string, cookies []*http.Cookie) (*vResult
 	return res, t0, t1
 }
 
+// vC03JarOverlap: several logins outstanding in ONE browser that applies every Set-Cookie it receives (deletions
+// included), completed in every order, with the pages a user may visit in between.  With per-request CSRF cookies
+// each of them completes.
+func vC03JarOverlap(t *testing.T, out *vEmitter) {
+	orders := [][]int{{0, 1, 2}, {2, 1, 0}, {1, 0, 2}, {1, 2, 0}}
+	for _, redis := range []bool{false, true} {
+		for _, between := range []string{"", "/oauth2/sign_in", "/"} {
+			for _, order := range orders {
+				e := vNewEnv(t, vEnvCfg{oidc: true, redis: redis, mod: func(o *options.Options) {
+					o.Cookie.CSRFPerRequest = true
+					o.Providers[0].OIDCConfig.InsecureSkipNonce = true
+				}})
+				e.idp.stdToken("user@example.com", "", nil)
+				b := e.newBrowser("https://app.example.com")
+				logins := []*vLogin{b.start("/a"), b.start("/b?x=1"), b.start("/c")}
+				for k, i := range order {
+					if between != "" && k > 0 {
+						b.get(between)
+					}
+					cb := b.callback(logins[i].State, "code")
+					ok := cb.Status == 302 && e.sessionCookieSet(cb)
+					out.Obs("jar-overlap", true, vL(vBool(redis), vS(between), vI(int64(i)), vI(int64(k)), vI(int64(cb.Status))))
+					out.Stat("jar_overlap_callbacks", 1)
+					if !ok {
+						out.Violation("callback/own-login-rejected", "a callback carrying the unmodified state and CSRF cookie of one login was refused",
+							map[string]interface{}{"redis": redis, "order": fmt.Sprint(order), "login": i, "position": k, "status": cb.Status, "visited_between": between,
+								"browser": "applies every Set-Cookie of earlier responses, deletions included"})
+					}
+				}
+			}
+		}
+	}
+}
+
 func driveC03(t *testing.T, out *vEmitter) {
+	defer vC03JarOverlap(t, out)
 	type combo struct{ perReq, enc, pkce, redis bool }
 	var combos []combo
 	for _, perReq := range []bool{true, false} {
